@@ -104,6 +104,17 @@ def real_curve(case, ts):
     return series, single
 
 
+def real_curve_series(case, ts):
+    """the curve read for a whole series at once (bsfc / emission families)"""
+    if case["family"] == "bsfc":
+        eng = plants.build_engine({"rated": 1000.0, "speed": 900.0, "bsfc": case["points"]})
+        rp = eng.get_engine_run_point_from_power_out_kw(np.array(ts, dtype=float) * 1000.0)
+        return [float(v) for v in np.atleast_1d(rp.bsfc_g_per_kWh)], None
+    eng = plants.build_engine({"rated": 1000.0, "speed": 900.0, "bsfc": [200.0], "nox": "TIER_2",
+                               "emissions": [{"species": "CO", "points": [list(p) for p in case["points"]]}]})
+    return [float(v) for v in np.atleast_1d(eng.emissions_g_per_kwh(EmissionType.CO, np.array(ts, dtype=float)))], None
+
+
 def run_curve_case(ctx, case, rng, model=True):
     where = {"case": dict(case, kind="curve")}
     pts = sorted(case["points"])
@@ -138,6 +149,19 @@ def run_curve_case(ctx, case, rng, model=True):
         want = [min(1.0, max(0.01, v)) for v in vals] if fam == "efficiency" else vals
         if not all(close(a, b, scale=scale) for a, b in zip(second, want)):
             ctx.fail("predicate", "curve-reading-differs", f"{fam}: one by one / through the component {second} vs {want}", where)
+    # a long series (a day at one-minute steps and more) is read like a short one, also above 100 % load (seeded change C09-r4:
+    # a 1001-entry lookup table on [0, 1] for series longer than the table)
+    if fam != "efficiency" and len(pts) > 1 and rng.random() < 0.3:
+        m = int(rng.choice([1002, 1500, 2500]))
+        long_ts = np.round(rng.uniform(xs[0], xs[-1], m), 4)
+        long_ts[:len(ts)] = ts
+        try:
+            long_vals, _ = real_curve_series(case, long_ts)
+            ctx.count("curve_long_series", m)
+            if not all(close(a, b, scale=scale) for a, b in zip(long_vals[:len(ts)], vals)):
+                ctx.fail("predicate", "curve-long-series-differs", f"{fam}: the first {len(ts)} of {m} samples {long_vals[:len(ts)]} vs read on their own {vals}", where)
+        except Exception as e:
+            ctx.fail("predicate", "curve-raises-" + core.error_class(e), f"long series: {type(e).__name__}: {e}", where)
     # correspondence with the model
     if model and ctx.model_available:
         out = [dec(v) for v in ctx.model.call("pchip.curve", points=[[enc(p[0]), enc(p[1])] for p in case["points"]], at=[enc(t) for t in ts])]
